@@ -33,6 +33,9 @@ Main entry points
     BOUNDARY[code]                       boundary spec values per basic type
     all_types(max_len)                   every valid single complete type whose signature has length <= max_len
     collect_fds(ty, sv, out)             descriptors of a spec value in wire order
+    gen_mixed_case(rng) / mixed_matrix() variants holding containers whose members are of different classes (plain value then
+                                         typed wrappers / bools ...), which `to_python` never spells
+    limit_cases(rng)                     a fixed list of cases AT the limits of the grammar (32 arrays, 32 structs, 255 characters)
 """
 import struct
 
@@ -802,3 +805,327 @@ def _bucket(n, edges):
 def type_stats(ty):
     """(nesting depth, number of type codes) of a type - for distribution reports."""
     return depth_of(ty), len(render(ty))
+
+
+# ---------------------------------------------------------------------------- heterogeneous containers inside variants
+# A list (or the values of a dict) carried by a variant whose members are NOT all of one Python class has no single
+# element type: it travels as an array of variants ('av' / 'a{kv}'), every member under the type of its own class -
+# a plain int by its range, a typed wrapper by its `dbusSignature`, bool as BOOLEAN, str / ObjectPath / Signature as
+# 's' / 'o' / 'g'.  `to_python` never spells the mixtures in which a later member is an instance of a SUBCLASS of the
+# first member's class (plain int then Int64 / UInt32 / bool, plain str then ObjectPath ...); the generators below do.
+# The expectation is written from the classes alone (no call of txdbus's inference).
+MIXED_INT_KINDS = ['int', 'int', 'bool', 'y', 'n', 'q', 'i', 'u', 'x', 't', 'Boolean']
+MIXED_STR_KINDS = ['str', 'str', 'o', 'g']
+MIXED_ANY_KINDS = MIXED_INT_KINDS + MIXED_STR_KINDS + ['float']
+
+
+def mixed_member(rng, kind):
+    """(type, spec value, Python value) of one member of a mixed container: `kind` = 'int' (plain int, typed by its
+    range), 'bool', 'Boolean' (the wrapper), a code of INT_RANGE (the typed wrapper of that code), 'str', 'o', 'g'
+    (ObjectPath / Signature wrapper), 'float'."""
+    m = _m()
+    if kind == 'int':
+        n = rng.choice(PLAIN_INT_BOUNDARIES) if rng.random() < 0.5 else rng.choice([0, 1, 2, 5, -3, 1000, 70000])
+        return plain_int_type(n), n, n
+    if kind == 'bool':
+        b = rng.random() < 0.5
+        return 'b', b, b
+    if kind == 'Boolean':
+        b = rng.random() < 0.5
+        return 'b', b, m.Boolean(1 if b else 0)
+    if kind in INT_RANGE:
+        n = gen_basic(rng, kind)
+        return kind, n, getattr(m, WRAPPER[kind])(n)
+    if kind == 'str':
+        s = _gen_string(rng)
+        return 's', s, s
+    if kind == 'o':
+        p = _gen_path(rng)
+        return 'o', p, m.ObjectPath(p)
+    if kind == 'g':
+        g = rng.choice(SIGS)
+        return 'g', g, m.Signature(g)
+    if kind == 'float':
+        x = gen_basic(rng, 'd')
+        return 'd', x, x
+    raise ValueError(kind)
+
+
+def _mixed_tuple(rng):
+    """A struct member: a tuple is typed field by field, whatever the classes of its fields."""
+    ms = [mixed_member(rng, rng.choice(MIXED_ANY_KINDS)) for _ in range(rng.choice([1, 2, 3]))]
+    return ('(', tuple(t for t, _, _ in ms)), [s for _, s, _ in ms], tuple(p for _, _, p in ms)
+
+
+def gen_mixed_members(rng, depth=1):
+    """Two or more members (type, spec value, Python value), at least one of the later ones of another exact class than
+    the first - favouring a PLAIN first member followed by instances of subclasses of its class."""
+    family = rng.choice(['int', 'int', 'int', 'str', 'any'])
+    kinds = {'int': MIXED_INT_KINDS, 'str': MIXED_STR_KINDS, 'any': MIXED_ANY_KINDS}[family]
+    first = ('str' if family == 'str' else 'int') if rng.random() < 0.6 else rng.choice(kinds)
+    members = [mixed_member(rng, first)]
+    for _ in range(rng.choice([1, 1, 2, 3, 5])):
+        r = rng.random()
+        if depth > 0 and r < 0.08:
+            sv, pv = gen_mixed_container(rng, depth - 1)
+            members.append((sv[1], sv[2], pv))
+        elif r < 0.14:
+            members.append(_mixed_tuple(rng))
+        else:
+            members.append(mixed_member(rng, rng.choice(kinds)))
+    cls0 = type(members[0][2])
+    if all(type(p) is cls0 for _, _, p in members[1:]):
+        for _ in range(100):
+            cand = mixed_member(rng, rng.choice(kinds))
+            if type(cand[2]) is not cls0:
+                break
+        else:
+            cand = ('d', 1.5, 1.5) if cls0 is not float else ('s', 'x', 'x')
+        members[rng.randrange(1, len(members))] = cand
+    return members
+
+
+def _mixed_keys(rng, n):
+    """`n` distinct dict keys of ONE class (the key type is read off one key): (key type, spec keys, Python keys)."""
+    m = _m()
+    r = rng.random()
+    if r < 0.7:
+        pool = ['', 'a', 'k', 'volume', 'position', 'é', 'opts', 'x' * 9, 'key with space', '€']
+        ks = rng.sample(pool, n)
+        return 's', ks, ks
+    if r < 0.85:
+        ks = rng.sample([0, 1, -1, 7, 255, 256, 2 ** 31 - 1, -2 ** 31, 65536, -300], n)
+        return 'i', ks, ks
+    c = rng.choice(['y', 'q', 'u', 't', 'x'])
+    ks = rng.sample(sorted(set(BOUNDARY[c]) | {2, 3, 5, 8, 13, 21, 34, 55}), n)
+    return c, ks, [getattr(m, WRAPPER[c])(k) for k in ks]
+
+
+def gen_mixed_container(rng, depth=1):
+    """(spec value of type 'v', Python value): a variant holding a heterogeneous list ('av') or a dict with
+    heterogeneous values ('a{kv}')."""
+    members = gen_mixed_members(rng, depth)
+    if rng.random() < 0.6:
+        ty = ('a', 'v')
+        sv = [('V', t, s) for t, s, _ in members]
+        pv = [p for _, _, p in members]
+    else:
+        kt, ksv, kpv = _mixed_keys(rng, len(members))
+        ty = ('a', ('{', kt, 'v'))
+        sv = [(k, ('V', t, s)) for k, (t, s, _) in zip(ksv, members)]
+        pv = {k: p for k, (_, _, p) in zip(kpv, members)}
+    return ('V', ty, sv), pv
+
+
+MIXED_CONTEXTS = ['v', 'v', 'av', 'a{sv}', 'a{sv}', '(vy)', 'v(..)', 'vv']
+
+
+def gen_mixed_case(rng, context=None):
+    """(context, types, spec values, Python values): a heterogeneous container held by a variant that sits at top
+    level, in an array of variants, as a value of an `a{sv}` dict, in a struct, or (typed field by field) in a tuple
+    inside a variant."""
+    context = context or rng.choice(MIXED_CONTEXTS)
+    lead = rng.choice(['y', 'u', 'x', 's', 'q'])
+    lead_sv = gen_basic(rng, lead)
+    sv, pv = gen_mixed_container(rng)
+
+    def other_variant():
+        for _ in range(50):
+            try:
+                s = gen_spec(rng, 'v', 1)
+                return s, to_python(rng, 'v', s)
+            except Retry:
+                continue
+        return ('V', 'i', 0), 0
+    if context == 'v':
+        tys, svs, pvs = ['v'], [sv], [pv]
+    elif context == 'vv':
+        sv2, pv2 = gen_mixed_container(rng)
+        tys, svs, pvs = ['v', 'v'], [sv, sv2], [pv, pv2]
+    elif context == 'av':
+        items = [other_variant() for _ in range(rng.choice([0, 1, 2]))]
+        items.insert(rng.randrange(len(items) + 1), (sv, pv))
+        tys, svs, pvs = [('a', 'v')], [[s for s, _ in items]], [[p for _, p in items]]
+    elif context == 'a{sv}':
+        items = [other_variant() for _ in range(rng.choice([0, 1, 2]))]
+        items.insert(rng.randrange(len(items) + 1), (sv, pv))
+        keys = rng.sample(['opts', 'a', '', 'Metadata', 'é', 'k2'], len(items))
+        tys = [('a', ('{', 's', 'v'))]
+        svs = [[(k, s) for k, (s, _) in zip(keys, items)]]
+        pvs = [{k: p for k, (_, p) in zip(keys, items)}]
+    elif context == '(vy)':
+        tys, svs = [('(', ('v', 'y'))], [[sv, 9]]
+        pvs = [rng.choice([tuple, list])([pv, 9])]
+    elif context == 'v(..)':
+        t0, s0, p0 = mixed_member(rng, rng.choice(MIXED_ANY_KINDS))
+        vt = ('(', (t0, sv[1]))
+        tys, svs, pvs = ['v'], [('V', vt, [s0, sv[2]])], [(p0, pv)]
+    else:
+        raise ValueError(context)
+    return context, [lead] + tys, [lead_sv] + svs, [to_python(rng, lead, lead_sv)] + pvs
+
+
+def mixed_matrix():
+    """Deterministic: every (class of the first member) x (class of a later member, at both ends of its range) pair
+    of different classes, as ((type, spec value, Python value) first, ... later)."""
+    m = _m()
+    firsts = [('i', 1, 1), ('x', 2 ** 40, 2 ** 40), ('t', 2 ** 63, 2 ** 63), ('b', True, True), ('s', 'a', 'a'),
+              ('d', 1.5, 1.5), ('i', 7, m.Int32(7)), ('y', 1, m.Byte(1)), ('x', -5, m.Int64(-5))]
+    laters = []
+    for c in 'ynqiuxt':
+        lo, hi = INT_RANGE[c]
+        laters += [(c, lo, getattr(m, WRAPPER[c])(lo)), (c, hi, getattr(m, WRAPPER[c])(hi))]
+    laters += [('b', False, False), ('b', True, True), ('b', True, m.Boolean(1)), ('o', '/a', m.ObjectPath('/a')),
+               ('g', 'ai', m.Signature('ai')), ('i', -2 ** 31, -2 ** 31), ('x', 2 ** 31, 2 ** 31),
+               ('x', -2 ** 63, -2 ** 63), ('t', 2 ** 64 - 1, 2 ** 64 - 1), ('s', 'é', 'é'), ('d', -0.5, -0.5)]
+    return [(f, l) for f in firsts for l in laters if type(f[2]) is not type(l[2])]
+
+
+def mixed_stats(ty, sv, pv, stat):
+    """Distribution report for a value holding mixed containers (walks type, spec value and Python value together)."""
+    if isinstance(ty, str):
+        if ty == 'v':
+            mixed_stats(sv[1], sv[2], pv, stat)
+        return
+    if ty[0] == '(':
+        fields = list(pv) if isinstance(pv, (list, tuple)) else []
+        for f, s, p in zip(ty[1], sv, fields):
+            mixed_stats(f, s, p, stat)
+        return
+    if ty[0] != 'a':
+        return
+    el = ty[1]
+    if el == 'v' and isinstance(pv, list):
+        triples = list(zip([s[1] for s in sv], [s[2] for s in sv], pv))
+    elif not isinstance(el, str) and el[0] == '{' and el[2] == 'v' and isinstance(pv, dict):
+        triples = list(zip([s[1][1] for s in sv], [s[1][2] for s in sv], pv.values()))
+    else:
+        return
+    if len(triples) >= 2:
+        t0, s0, p0 = triples[0]
+        sub = [(t, s, p) for t, s, p in triples[1:] if type(p) is not type(p0) and isinstance(p, type(p0))]
+        if sub:
+            stat('mixed:plain-first-then-wrapper-or-bool')      # only int and str have subclasses here
+            if t0 in INT_RANGE and any(t in INT_RANGE and not INT_RANGE[t0][0] <= s <= INT_RANGE[t0][1]
+                                       for t, s, _ in sub):
+                stat('mixed:later-member-outside-range-of-first-type')
+        elif any(type(p) is not type(p0) for _, _, p in triples[1:]):
+            stat('mixed:unrelated-classes')
+    for t, s, p in triples:
+        mixed_stats(t, s, p, stat)
+
+
+# ---------------------------------------------------------------------------- the specification's limits
+MAX_ARRAY_NESTING = 32      # DBus specification: arrays nest at most 32 deep,
+MAX_STRUCT_NESTING = 32     # structs (and dict entries) at most 32 deep,
+MAX_SIGNATURE = 255         # a signature is at most 255 bytes long.
+
+
+def _pad_types(tys, total, fill='y'):
+    """`tys` followed by as many `fill` types as bring the whole signature to exactly `total` characters."""
+    n = total - len(render_all(tys))
+    if n < 0 or n % len(render(fill)):
+        raise ValueError('cannot pad %s to %d' % (render_all(tys), total))
+    return list(tys) + [fill] * (n // len(render(fill)))
+
+
+def limit_cases(rng):
+    """A fixed list of (kind, types, spec values) AT the limits of the DBus type grammar (never beyond them): 32
+    nested arrays, 32 nested structs, both, signatures of exactly 255 characters - at top level, inside structs /
+    arrays / dict entries, and as the inferred type of a value held by a variant (plain nested lists / tuples).
+    The list of TYPES is the same on every run; `rng` only picks leaf values."""
+    A, S = MAX_ARRAY_NESTING, MAX_STRUCT_NESTING
+    out = []
+
+    def leafval(leaf):
+        if leaf == 'v':
+            n = rng.choice(PLAIN_INT_BOUNDARIES)
+            return ('V', plain_int_type(n), n)
+        if isinstance(leaf, str):
+            return gen_basic(rng, leaf)
+        if leaf[0] == 'a':
+            return [leafval(leaf[1]), leafval(leaf[1])]
+        if leaf[0] == '(':
+            return [leafval(f) for f in leaf[1]]
+        return (leafval(leaf[1]), leafval(leaf[2]))
+
+    def nested(levels, leaf):
+        """`leaf` wrapped level by level, innermost first: 'a' = an array of one element, '(' = a struct of one field."""
+        ty, sv = leaf, leafval(leaf)
+        for kind in levels:
+            ty, sv = (('a', ty), [sv]) if kind == 'a' else (('(', (ty,)), [sv])
+        return ty, sv
+
+    def add(kind, tys, svs):
+        if len(render_all(tys)) > MAX_SIGNATURE:
+            raise ValueError('limit case %s beyond the signature limit' % kind)
+        out.append((kind, tys, svs))
+
+    # -- arrays: exactly 32 (and 31) deep, several leaves, an empty innermost array, two elements per level at the top
+    for leaf in ['y', 'x', 's', 'v', ('(', ('y', 'x')), ('{', 's', 'y')]:
+        ty, sv = nested('a' * A, leaf)
+        add('arrays-32', [ty], [sv])
+    ty, sv = nested('a' * (A - 1), 'q')
+    add('arrays-31', [ty], [sv])
+    ty, sv = _nest(rng, 'a' * A, 'x'), []
+    for _ in range(A - 1):
+        sv = [sv]
+    add('arrays-32-innermost-empty', ['y', ty], [1, sv])
+    ty, sv = nested('a' * A, 'n')
+    add('arrays-32-two-branches', [ty, 'y'], [[sv[0], sv[0]], 7])
+    # -- structs: exactly 32 (and 31) deep
+    for leaf in ['y', 'x', 's']:
+        ty, sv = nested('(' * S, leaf)
+        add('structs-32', [ty], [sv])
+    ty, sv = nested('(' * (S - 1), 'u')
+    add('structs-31', [ty], [sv])
+    # -- one kind inside the other
+    ty, sv = nested('a' * A, 'q')
+    add('arrays-32-in-struct', [('(', ('y', ty, 'q'))], [[5, sv, 65535]])
+    ty, sv = nested('(' * S, 'q')
+    add('structs-32-in-array', ['y', ('a', ty)], [3, [sv, sv]])
+    ty, sv = nested('a' * A + '(' * S, 'y')
+    add('structs-32-around-arrays-32', [ty], [sv])
+    ty, sv = nested('(' * S + 'a' * A, 'x')
+    add('arrays-32-around-structs-32', ['y', ty], [1, sv])
+    ty, sv = nested('a(' * A, 's')
+    add('arrays-32-structs-32-alternating', [ty], [sv])
+    ty, sv = nested('a' * (A - 1), ('{', 'y', ('a', 'u')))
+    add('arrays-32-through-dict-entry', [ty], [sv])
+    # -- signatures of exactly 255 characters (and 254)
+    add('signature-255-bytes', ['y'] * MAX_SIGNATURE, [i % 256 for i in range(MAX_SIGNATURE)])
+    add('signature-254-mixed', _pad_types(['s', 'x'], 254, 'q'), ['é', -1] + [i for i in range(252)])
+    add('signature-255-one-struct', [('(', tuple(['y'] * (MAX_SIGNATURE - 2)))], [[i % 256 for i in range(MAX_SIGNATURE - 2)]])
+    ty, sv = nested('a' * A, 'y')
+    tys = _pad_types(['u', ty], MAX_SIGNATURE, 'u')
+    add('signature-255-with-arrays-32', tys, [4, sv] + [2 ** 32 - 1] * (len(tys) - 2))
+    ty, sv = nested('a' * A + '(' * S, 'y')
+    tys = _pad_types([ty], MAX_SIGNATURE, 'q')
+    add('signature-255-with-arrays-32-structs-32', tys, [sv] + [i for i in range(len(tys) - 1)])
+    d = ('a', ('{', 's', 'v'))
+    add('signature-255-dicts', [d] * (MAX_SIGNATURE // 5), [[] if i % 3 else [('k', ('V', 'i', i))] for i in range(MAX_SIGNATURE // 5)])
+    add('signature-255-as-g-value', ['g', 'y'], ['a' * A + 'y' + '(' * S + 'i' + ')' * S + 'u' * (MAX_SIGNATURE - A - 2 * S - 2), 1])
+    # -- the same limits for the type INFERRED for the content of a variant
+    for leaf in ['i', 's', 'd', 'x', 'b']:
+        ty, sv = nested('a' * A, leaf)
+        add('variant-arrays-32', ['v'], [('V', ty, sv)])
+    ty, sv = nested('a' * (A - 1), 'i')
+    add('variant-arrays-31', ['y', 'v'], [0, ('V', ty, sv)])
+    for leaf in ['i', 's']:
+        ty, sv = nested('(' * S, leaf)
+        add('variant-structs-32', ['v'], [('V', ty, sv)])
+    ty, sv = nested('a(' * A, 'i')
+    add('variant-arrays-32-structs-32-alternating', ['v'], [('V', ty, sv)])
+    ty, sv = nested('a' * A + '(' * S, 'i')
+    add('variant-structs-32-around-arrays-32', ['y', 'v'], [2, ('V', ty, sv)])
+    ty, sv = nested('a' * A, 'i')
+    add('variant-arrays-32-in-a{sv}', [d, 'y'], [[('deep', ('V', ty, sv)), ('flat', ('V', 's', 'x'))], 1])
+    add('variant-arrays-32-in-av', [('a', 'v')], [[('V', 'i', 1), ('V', ty, sv)]])
+    add('variant-arrays-32-in-struct', [('(', ('y', 'v'))], [[1, ('V', ty, sv)]])
+    vt = ('(', ('y', ty, 's'))
+    add('variant-struct-holding-arrays-32', ['v'], [('V', vt, [200, sv, 'z'])])
+    n = MAX_SIGNATURE - 2
+    add('variant-signature-255', ['v'], [('V', ('(', tuple(['i'] * n)), [i - 100 for i in range(n)])])
+    vt = ('(', tuple([ty] + ['i'] * (MAX_SIGNATURE - 2 - A - 1)))
+    add('variant-signature-255-with-arrays-32', ['v'], [('V', vt, [sv] + [0] * (MAX_SIGNATURE - 2 - A - 1))])
+    return out
